@@ -32,6 +32,7 @@ def unescape(s):
 
 def make_program(rng, prefix, nstmts):
     g = GT.Gen(rng, prefix)
+    g.no_time_point = True     # the expectation of a time point needs the clock sync: covered by the mser and time streams
     sync = (rng.choice([0, 1000, 123456789]), rng.choice([1, 1000, 1000000, 1000000000, 2400000000, 3]),
             rng.choice([0, 1600000000 * 10 ** 9, 1700000000123456789, 86399 * 10 ** 9 + 999999999, 4102444800 * 10 ** 9]),
             rng.choice([0, 3600, -18000, 19800, 45 * 60, -1]), rng.choice(['UTC', 'CET', 'X', '', 'LongZoneName']))
